@@ -63,4 +63,10 @@ TEXT = {
         design_ref='DESIGN.md §5 C11',
         note="as C01.",
     ),
+    'C08': dict(
+        technique='Lean 4 proof that the modelled serde reader inverts the modelled serde writer for all bounded registries and that the written document satisfies the documented-shape predicate + differential correspondence with serde_json on generated and mutated documents',
+        level="Proof: SIM.C08.toRegistry_ofRegistry (for every registry the Rust types can hold, every combination of empty and non-empty parts), ofRegistry_shape (documented keys, lower-case tags, empty parts and absent names omitted), json_scale_same_info, ofRegistry_injective, def_tag, ty_members, field_members, prim_name_roundtrip, key_text_roundtrip. Tie: real to_value output compared with the model writer and checked against the shape predicate and an independent reader; real from_value compared with the model reader on mutated documents.",
+        design_ref='DESIGN.md §5 C08',
+        note="serde's derive semantics are modelled, not verified; alternative input encodings (positional arrays) are outside the model and reported as UNMODELLED counts in the evidence.",
+    ),
 }
